@@ -3,7 +3,7 @@
     ServerTotalProofs.v.  [serve] is the model of webdav.Handler, caldav.Handler,
     carddav.Handler and webdav.ServePrincipal (ServerTotal.v); [backend_total] says the
     backend double is there, returns errors with a 4xx/5xx code and never (nil, nil). *)
-From GW Require Import Base GoPath ServerTotal ServerTotalProofs ServerTotalReport.
+From GW Require Import Base GoPath Fs ServerTotal ServerTotalProofs ServerTotalReport ServerTotalAgree.
 Local Open Scope N_scope.
 
 (** No request makes a handler panic: any method, path, header values, body parse. *)
@@ -170,3 +170,36 @@ Print Assumptions C13_acceptable_spec.
 Theorem C13_agree_is_equality : forall a c, outcome_eqb a c = true -> a = c.
 Proof. exact outcome_eqb_eq. Qed.
 Print Assumptions C13_agree_is_equality.
+
+(** The two models of webdav.Handler agree.  [D.serve root sb r] is the file-server stack's
+    model (DavServer.v: the handler composed with LocalFileSystem on the sandbox tree [sb]);
+    [local_env root sb r] is the FileSystem double that answers Stat / Open / ReadDir / Create /
+    RemoveAll / Mkdir / Copy / Move as DavServer's own [stat] and [do_*] functions say
+    LocalFileSystem does on [sb]; [req_match r r'] says [r'] carries the method, path, Depth /
+    Overwrite / Destination texts and Content-Type presence of [r] and that
+    DecodePropFindRequest reads its body as [D.pf r] says.  Then this file's model answers the
+    status DavServer answers, never panics, records at most one mutating call (on the request
+    path), and records none only if DavServer leaves the sandbox as it was.  PROPPATCH is
+    excluded because DavServer.v has no case for it (next theorem). *)
+Theorem C13_agrees_with_file_server_model : forall root sb r r',
+  req_match r r' -> D.meth r <> "PROPPATCH" ->
+  exists cs,
+    serve (CDav (local_env root sb r) r') = Resp (st (D.serve root sb r)) cs /\
+    (cs = [] \/ exists k dst, cs = [Call k (D.rpath r) dst]) /\
+    (cs = [] -> fst (D.serve root sb r) = sb).
+Proof. exact agrees_with_file_server_model. Qed.
+Print Assumptions C13_agrees_with_file_server_model.
+
+(** every DavServer request has a translation ([req_of]) *)
+Theorem C13_request_translation_exists : forall r, req_match r (req_of r).
+Proof. exact req_of_match. Qed.
+Print Assumptions C13_request_translation_exists.
+
+(** On PROPPATCH the two models differ: DavServer.serve answers 405 (no case for the
+    method), this model 403 for a decodable body (400 otherwise) - as the real handler over
+    a LocalFileSystem does (notes/C13.md). *)
+Theorem C13_file_server_model_proppatch_differs :
+  st (D.serve [] None proppatch_req) = 405 /\
+  serve (CDav (local_env [] None proppatch_req) proppatch_req') = Resp 403 [].
+Proof. exact proppatch_differs. Qed.
+Print Assumptions C13_file_server_model_proppatch_differs.
